@@ -5,8 +5,9 @@
 (* operation (List / Load / Save / Remove on lock files) of a process.     *)
 (*                                                                         *)
 (* Time unit 2.5 min: refresh interval 2, refreshability timeout 9, stale  *)
-(* after 12.  Every process has a clock offset skew[p] <= MaxSkew, the     *)
-(* third party running `unlock` (StaleRm) has skewU.  The environment may  *)
+(* after 12.  The processes define the reference clock; the third party    *)
+(* running `unlock` (StaleRm) and any other judge of staleness is off by   *)
+(* skewU, |skewU| <= MaxSkew (only differences matter).  The environment may *)
 (* stall a process inside backend operations for at most Budget units in   *)
 (* total (premise of C12) and may make backend operations of a process     *)
 (* fail (Faults).  Timers (200 ms sleeps, retry delays, refresh ticker,    *)
